@@ -742,3 +742,46 @@ fn c14_core_extensions_try_from_wellformed() {
     }
     std::mem::forget(e);
 }
+
+/// Unprivileged UDP (kernel-built headers): a fresh datagram socket is bound to the source address and
+/// the probe's source port, carries the probe's ttl and the configured tos as socket options, and the
+/// payload (configured size minus the 28 header bytes the kernel adds) goes to the target and the probe's
+/// destination port.  Bind failures map as for TCP.
+#[kani::proof]
+#[kani::unwind(45)]
+fn c11_v4_dispatch_udp_unprivileged() {
+    let mut ipv4 = any_ipv4_cfg(Protocol::Udp, 37, false);
+    ipv4.privilege_mode = PrivilegeMode::Unprivileged;
+    let probe = any_probe(Flags::empty());
+    let b: u8 = kani::any();
+    kani::assume(b <= 7);
+    unsafe { sockstate::BIND_OUTCOME = b };
+    let mut s = HSock;
+    let (ttl, sp, dp) = (probe.ttl.0, probe.src_port.0, probe.dest_port.0);
+    let r = ipv4.dispatch_udp_probe(&mut s, probe);
+    let local = SocketAddr::new(IpAddr::V4(ipv4.src_addr), sp);
+    let remote = SocketAddr::new(IpAddr::V4(ipv4.dest_addr), dp);
+    unsafe {
+        assert!(sockstate::NEW_CALLS == 1, "one fresh socket per probe");
+        assert!(sockstate::BIND_ADDR == Some(local), "bound to source address and source port");
+    }
+    if b == 0 || b == 5 {
+        assert!(r.is_ok());
+        unsafe {
+            assert!(sockstate::TTL_SET == Some(u32::from(ttl)), "probe ttl");
+            assert!(sockstate::TOS_SET == Some(u32::from(ipv4.tos.0)), "configured tos");
+            assert!(sockstate::SEND_CALLS == 1 && sockstate::SEND_ADDR == Some(remote), "sent to the target and destination port");
+            assert!(SENT_LEN == 37 - 28, "payload size = packet size minus IP and UDP headers");
+        }
+    } else {
+        match (b, &r) {
+            (1, Err(Error::AddressInUse(a))) => assert!(*a == local),
+            (2, Err(Error::ProbeFailed(_))) => {}
+            (3 | 4 | 6 | 7, Err(Error::IoError(_))) => {}
+            _ => assert!(false, "bind error mapping"),
+        }
+        assert!(unsafe { sockstate::SEND_CALLS } == 0);
+    }
+    kani::cover!(r.is_ok(), "sent");
+    std::mem::forget(r);
+}
